@@ -32,8 +32,12 @@ for d in sorted(os.listdir("/verif/seeded")):
 
 out = ["# Seeded changes vs. the quick checks", "",
        "`tools/try_mutant.sh <id>` applies `seeded/<id>/patch.diff` to a scratch worktree of /repo HEAD and runs",
-       "`./check <property> --tier quick` against it (shadow harness crate, private target dir).  DETECTED = exit 1 with a",
-       "VIOLATION line after native replay; missed = exit 0; inconclusive = exit 2.", "",
+       "`./check <property> --tier quick` against it (shadow harness crate, private target dir); runs that came out",
+       "inconclusive there (solver behaviour depends on the repository path, DESIGN section 7) were repeated with",
+       "`tools/try_mutant_inplace.sh <id>`, which applies the patch to /repo itself and reverts it afterwards.",
+       "DETECTED = exit 1 with a VIOLATION line after the counterexample failed natively (a replay that merely ran out of",
+       "recorded values counts as not reproduced); missed = exit 0; inconclusive = exit 2.  Detections were re-run on the",
+       "failing harness alone after the replay criterion was corrected; the last run of each change is what is shown.", "",
        "| id | property | outcome | change | failing check(s) |", "|---|---|---|---|---|"]
 for r in rows:
     out.append("| %s | %s | **%s** | %s | %s |" % r)
